@@ -7,6 +7,7 @@ instant), several writers interleaved by the scheduler, all delimiter settings.
 Oracle: refmodel.writer_model + envelope recount + re-read with X12Reader.
 """
 import io
+import os
 
 import core
 import seams
@@ -61,7 +62,7 @@ def trailer(rng, sid, true_count, ctl, stats):
     if kind == 'count_nonnum':
         return [sid, rng.choice(['X', '1A']), ctl]
     if kind == 'ctl_wrong':
-        return [sid, str(true_count), ctl[:-1] + ('9' if ctl[-1] != '9' else '8')]
+        return [sid, str(true_count), ctl[:-1] + ('9' if ctl[-1:] != '9' else '8')]
     if kind == 'ctl_blank':
         return [sid, str(true_count), '']
     if kind == 'no_elements':
@@ -96,7 +97,12 @@ def gen_history(rng, icvn, budget=60):
                 if s and rng.random() < 0.12:
                     sctl = '%04d' % (s0 + rng.randrange(0, s))     # a set control number reused within the group
                     stats.append('dup_st02')
-                ev.append(['ST', '837', sctl])
+                if rng.random() < 0.03:
+                    ev.append(['ST', '837'])             # a header without its control number: the generated trailer has none either
+                    stats.append('st02_absent')
+                    sctl = ''
+                else:
+                    ev.append(['ST', '837', sctl])
                 nb = rng.randint(0, 6)
                 for _ in range(nb):
                     sid = rng.choice(envgen.BODY_IDS + ['HL', 'LX', 'CLM'])
@@ -132,6 +138,11 @@ def gen_delims(rng):
     while True:
         d = {'seg_term': rng.choice(SEG_TERMS), 'ele_term': rng.choice(ELE_TERMS), 'subele_term': rng.choice(SUB_TERMS),
              'repetition_term': rng.choice(REPS), 'eol': rng.choice(EOLS)}
+        if rng.random() < 0.15:
+            # the caller's segments were parsed with ~ * : - the writer's own set may use those characters in other roles
+            d['subele_term'], d['ele_term'] = ('*', rng.choice(['|', ':'])) if rng.random() < 0.5 else (d['subele_term'], d['ele_term'])
+            if rng.random() < 0.5:
+                d['repetition_term'] = ':'
         chars = [d['seg_term'], d['ele_term'], d['subele_term'], d['repetition_term']]
         if len(set(chars)) == 4 and not (d['seg_term'] == '\n' and d['eol']):
             return d
@@ -143,7 +154,8 @@ def generate(rng, tier, run, seed=0):
     for _ in range(k):
         icvn = rng.choice(['00401', '00501'])
         ev, stats = gen_history(rng, icvn)
-        hist.append({'events': ev, 'delims': gen_delims(rng), 'stats': stats, 'default_delims': rng.random() < 0.15})
+        hist.append({'events': ev, 'delims': gen_delims(rng), 'stats': stats, 'default_delims': rng.random() < 0.15,
+                     'by_name': rng.random() < 0.25})
     # interleaving schedule: which writer performs its next write
     sched = []
     remaining = [len(h['events']) for h in hist]
@@ -286,6 +298,35 @@ def execute(case):
             evals += 1
             for s in h['stats']:
                 out.fault(s)
+        # 1b. the same history written to a file the writer opens itself by name: after Close() the file holds the interchange
+        for i, h in enumerate(hs):
+            if not h.get('by_name') or h.get('default_delims'):
+                continue
+            import tempfile
+            import pyx12.x12file
+            base = os.environ.get('VERIF_SCRATCH_RUN') or tempfile.gettempdir()
+            fd, path = tempfile.mkstemp(prefix='c11-', suffix='.x12', dir=base)
+            os.close(fd)
+            try:
+                d = h['delims']
+                w = pyx12.x12file.X12Writer(path, d['seg_term'], d['ele_term'], d['subele_term'], d['eol'], d['repetition_term'])
+                for ev in h['events']:
+                    w.Write(to_segment(ev))
+                w.Close()
+                with open(path, 'r', encoding='latin-1', newline='') as f:
+                    on_disk = f.read()
+                evals += 1
+                out.fault('writer-opened-by-name')
+                want = sinks[i].getvalue().replace('\r\n', '\n') if False else sinks[i].getvalue()
+                if on_disk.replace('\r\n', '\n') != want.replace('\r\n', '\n'):
+                    out.violate('output', 'by-name-file-differs|%s' % ('empty' if on_disk == '' else 'content'),
+                                'history %d written to a file opened by name: after Close() the file holds %d characters, the same history '
+                                'written to a stream gives %d' % (i, len(on_disk), len(want)))
+            finally:
+                try:
+                    os.unlink(path)
+                except OSError:
+                    pass
         # 2. Close after every prefix, each on a fresh writer
         for i, h in enumerate(hs):
             for p in range(len(h['events'])):
